@@ -35,6 +35,14 @@ pub fn templates() -> Vec<&'static str> {
         "create-db {NEW} ntok",
         "get $$token",
         "set $$secret x",
+        // commands that make the session a subscriber: what they push is part of the entry of the command that caused it,
+        // and nothing of it may be left when the request has ended
+        "watch a",
+        "watch n",
+        "unwatch a",
+        "unwatch-all",
+        "arbiter",
+        "use-db {DB}b tok",
     ]
 }
 
@@ -64,14 +72,27 @@ pub struct Server {
 }
 
 pub fn start_server(ctx: &Ctx) -> Server {
+    start_server_named(ctx, "default")
+}
+
+pub fn start_server_named(ctx: &Ctx, name: &str) -> Server {
     crate::interpose::virtual_clock(true);
-    let dir = ctx.scratch.join("default").to_str().unwrap().to_string();
+    let dir = ctx.scratch.join(name).to_str().unwrap().to_string();
     let mut node = Node::boot_single(&dir);
     transport::run_services_in_background(&mut node);
     let port = transport::start_http(node.dbs.clone());
     let mut admin = Session::new();
     admin.auth(&node);
     Server { node, port, admin: RefCell::new(admin), counter: Cell::new(0) }
+}
+
+/// senders left in the watcher lists of a database, and whether it still counts an arbiter as connected
+fn subscriptions_left(node: &Node, db: &str) -> (usize, bool) {
+    let map = node.dbs.map.read().unwrap();
+    match map.get(db) {
+        Some(d) => (d.watchers.map.read().unwrap().values().map(|v| v.len()).sum(), d.has_arbiter_connected()),
+        None => (0, false),
+    }
 }
 
 fn render(t: &str, db: &str, new: &str) -> String {
@@ -140,6 +161,8 @@ pub fn run_case(srv: &Server, case: &Case) -> Outcome {
     let (new_http, new_twin) = (format!("nh{}x{}", pid, n), format!("nt{}x{}", pid, n));
     prepare_db(srv, &db_http);
     prepare_db(srv, &db_twin);
+    prepare_db(srv, &format!("{}b", db_http));
+    prepare_db(srv, &format!("{}b", db_twin));
 
     // reference: each command alone, in process, draining after each: its own entry
     let mut twin = Session::new();
@@ -220,6 +243,72 @@ pub fn run_case(srv: &Server, case: &Case) -> Outcome {
         out.fail = Some(("C20|connection-not-released".to_string(), format!("$connections of {} is {:?} after the request ended; {}", db_http, conn, ctxt())));
         return out;
     }
+    for db in [db_http.clone(), format!("{}b", db_http)] {
+        let (senders, arbiter) = subscriptions_left(&srv.node, &db);
+        if senders > 0 {
+            out.fail = Some(("C20|subscription-not-released".to_string(), format!("{} sender(s) of the request's session are still in the watcher lists of {} after the request ended; {}", senders, db, ctxt())));
+            return out;
+        }
+        if arbiter {
+            out.fail = Some(("C20|arbiter-registration-not-released".to_string(), format!("database {} still counts an arbiter as connected after the request ended (conflicting writes will wait for it for ever); {}", db, ctxt())));
+            return out;
+        }
+    }
+    if case.cmds.iter().any(|c| c.starts_with("watch") || c == "arbiter") {
+        out.nontrivial = true;
+        out.classes.push("request-subscribes");
+    }
+    out
+}
+
+/// The same body sent to a node that is a secondary: apart from create-db (only the primary creates databases) every
+/// entry is what the primary answers — a refused write is reported with its error text on every node.
+pub fn run_role_case(pri: &Server, sec: &Server, case: &Case) -> Outcome {
+    let n = pri.counter.get();
+    pri.counter.set(n + 1);
+    let pid = std::process::id();
+    let db = format!("r{}x{}", pid, n);
+    let mut out = Outcome::ok(case.cmds.iter().any(|c| c.contains("stale")));
+    out.classes.push("same-body-on-a-secondary");
+    let mut replies = vec![];
+    for srv in [pri, sec] {
+        // (databases are created while the node is the primary; the secondary's role is set afterwards)
+        srv.node.dbs.node_state.swap(nundb::bo::ClusterRole::Primary as usize, std::sync::atomic::Ordering::SeqCst);
+        prepare_db(srv, &db);
+        prepare_db(srv, &format!("{}b", db));
+        if std::ptr::eq(srv, sec) {
+            srv.node.dbs.node_state.swap(nundb::bo::ClusterRole::Secoundary as usize, std::sync::atomic::Ordering::SeqCst);
+        }
+        let body = body_of(case, &db, "never-created");
+        match transport::http_post(srv.port, &body) {
+            Ok((status, reply)) if status.contains("200") => replies.push((body, reply)),
+            Ok((status, _)) => {
+                out.fail = Some(("C20|http-status".to_string(), format!("POST {:?}: {}", body, status)));
+                return out;
+            }
+            Err(e) => {
+                out.fail = Some(("C20|http-io".to_string(), format!("POST {:?}: {}", body, e)));
+                return out;
+            }
+        }
+    }
+    let (p, s): (Vec<&str>, Vec<&str>) = (replies[0].1.split(';').collect(), replies[1].1.split(';').collect());
+    let cmds: Vec<&String> = case.cmds.iter().collect();
+    if p.len() != s.len() {
+        out.fail = Some(("C20|on-a-secondary|entry-count".to_string(), format!("body {:?}: the primary answers {:?}, a secondary {:?}", replies[0].0, p, s)));
+        return out;
+    }
+    if p.len() == cmds.len() {
+        for (i, c) in cmds.iter().enumerate() {
+            if c.starts_with("create-db") {
+                continue;
+            }
+            if p[i] != s[i] {
+                out.fail = Some((format!("C20|on-a-secondary|entry-differs|{}", classify(c)), format!("body {:?}: entry {} ({:?}) is {:?} on the primary and {:?} on a secondary; all entries {:?} vs {:?}", replies[0].0, i, c, p[i], s[i], p, s)));
+                return out;
+            }
+        }
+    }
     out
 }
 
@@ -245,6 +334,8 @@ pub fn run_ws_case(srv: &Server, ws_port: u16, case: &Case) -> Outcome {
     let (new_ws, new_twin) = (format!("nw{}x{}", pid, n), format!("nv{}x{}", pid, n));
     prepare_db(srv, &db_ws);
     prepare_db(srv, &db_twin);
+    prepare_db(srv, &format!("{}b", db_ws));
+    prepare_db(srv, &format!("{}b", db_twin));
     let mut twin = Session::new();
     for c in case.cmds.iter() {
         let line = render(c, &db_twin, &new_twin);
@@ -265,14 +356,16 @@ pub fn run_ws_case(srv: &Server, ws_port: u16, case: &Case) -> Outcome {
         dh = db_dump(&srv.node, &db_ws);
         dt = db_dump(&srv.node, &db_twin);
         let conn = srv.node.dump_db(&db_ws).and_then(|m| m.get("$connections").map(|v| v.0.clone())).unwrap_or_else(|| "0".to_string());
-        if dh == dt && conn == "0" {
+        let left = subscriptions_left(&srv.node, &db_ws);
+        let left_b = subscriptions_left(&srv.node, &format!("{}b", db_ws));
+        if dh == dt && conn == "0" && left == (0, false) && left_b == (0, false) {
             ok = true;
             break;
         }
         transport::real_sleep(std::time::Duration::from_millis(5));
     }
     if !ok {
-        out.fail = Some(("C20|ws-frame|state-differs-or-connection-not-released".to_string(), format!("frame {:?}: websocket run {:?}, one-by-one reference {:?}", body.join(";"), dh, dt)));
+        out.fail = Some(("C20|ws-frame|state-differs-or-connection-not-released".to_string(), format!("frame {:?}: websocket run {:?}, one-by-one reference {:?}; subscriptions left (senders, arbiter) {:?} / {:?}", body.join(";"), dh, dt, subscriptions_left(&srv.node, &db_ws), subscriptions_left(&srv.node, &format!("{}b", db_ws)))));
     } else if srv.node.dbs.has_db(&new_ws) != srv.node.dbs.has_db(&new_twin) {
         out.fail = Some(("C20|ws-frame|create-db-differs".to_string(), format!("frame {:?}", body.join(";"))));
     }
@@ -291,10 +384,29 @@ pub fn run(ctx: &Ctx, rep: &mut Report) {
         let n = ctx.amount(160, 6000);
         explore(ctx, rep, "websocket-frames", n, case_strategy(), |c| run_ws_case(&srv, ws_port, c));
     }
+    if rep.failures.is_empty() {
+        let sec = start_server_named(ctx, "secondary");
+        let n = ctx.amount(3000, 60_000);
+        // (no create-db: the database would exist on one of the two servers only; no increment: a secondary does not
+        // apply it, it forwards it to the primary and answers ok whatever the key holds)
+        let strat = case_strategy().prop_map(|mut c| {
+            for cmd in c.cmds.iter_mut() {
+                if cmd.starts_with("create-db") || cmd.starts_with("increment") {
+                    *cmd = "set-safe a 0 stale".to_string();
+                }
+            }
+            c
+        });
+        explore(ctx, rep, "bodies-on-a-secondary", n, strat, |c| run_role_case(&srv, &sec, c));
+    }
 }
 
 pub fn replay(ctx: &Ctx, engine: &str, case: &J) -> Result<Option<(String, String)>, String> {
     let srv = start_server(ctx);
+    if engine == "bodies-on-a-secondary" {
+        let sec = start_server_named(ctx, "secondary");
+        return replay_guarded::<Case>(ctx, case, |c| run_role_case(&srv, &sec, c));
+    }
     if engine == "websocket-frames" {
         let ws_port = transport::start_ws(srv.node.dbs.clone());
         return replay_guarded::<Case>(ctx, case, |c| run_ws_case(&srv, ws_port, c));
